@@ -386,7 +386,8 @@ def variant_prefix(v):
 def r4(ctx, rep, vs, extra):
     n = 0
     ext = {}; reported = set()
-    pv = [v for v in vs if variant_prefix(v) != 'yy'] + extra
+    # the go skeleton states that it ignores %option prefix (and go is not one of the documented back ends): not judged
+    pv = [v for v in vs if variant_prefix(v) != 'yy' and v.backend != 'go'] + extra
     rep.require(len(pv) >= 4, 'fewer than 4 prefixed scanner variants available for C12.R4')
     for v in pv:
         mod = variants.module(v); pfx = variant_prefix(v)
@@ -517,7 +518,7 @@ def run(ctx):
         allow = {}
         allow_mut = set(); loader_ok = False
         if v.backend == 'cxx': allow.update({k: r for k, r in CXX_RUNTIME_GLOBALS.items() if k in mod.globals})
-        if v.tables:
+        if v.tables and v.backend not in ('c99', 'go'):      # the c99/go back ends have no loadable tables (the option is silently accepted: C02 D33)
             dm, tg = dmap_info(mod)
             if dm is None: rep.broken('variant %s uses --tables-file but defines no yydmap' % v.name)
             rep.require(len(tg) >= 5, 'variant %s: yydmap initialiser names only %d tables' % (v.name, len(tg)))
